@@ -22,7 +22,8 @@ EXTENDS Integers, Sequences, FiniteSets, TLC
 Embeds(h) == h.owned /\ (h.kind # "bytes" \/ ~h.zero)
 
 New(backend) == [vals |-> {0}, hs |-> [x \in {} |-> 0], refs |-> 1, released |-> 0, rod |-> FALSE,
-                 file |-> IF backend = "file" THEN "present" ELSE "none", drops |-> 0, nextH |-> 1, nextV |-> 1]
+                 \* "file_ro" / "file_cro": the file opened read-only (map / map_copy_read_only): no allocation, same lifetimes
+                 file |-> IF backend \in {"file", "file_ro", "file_cro"} THEN "present" ELSE "none", drops |-> 0, nextH |-> 1, nextV |-> 1]
 
 \* the memory goes when the count reaches zero (Drop for Arena: fetch_sub(1) == 1 -> unmount)
 DecRef(st) ==
